@@ -28,6 +28,18 @@ theorem binE_bodies {d : Definition} {text : List Char} {lIs rIs lC rC rJ : Bool
   repeat' split at h
   all_goals first | (cases h; rfl) | cases h
 
+/-- what `isSideNode` says about the index tree -/
+theorem side_shape {rl rr : Spec.Tree} {ri rk : Nat} {nr : ParseNode} (hnr : nodes[ri]? = some nr)
+    (h : isSideNode (toRG (dfOf nodes) (.node rl ri rk rr)) = true) : rl = .nil ∧ nr.definition = .sideEffect := by
+  simp only [toRG, dfOf_get hnr] at h
+  split at h
+  · simp [isSideNode] at h
+  · cases rl with
+    | nil => simp only [toRG, isSideNode, beq_iff_eq] at h; exact ⟨rfl, h⟩
+    | node _ _ _ _ =>
+      simp only [toRG] at h
+      split at h <;> simp [isSideNode] at h
+
 theorem out_of_tree (hlink : Linked toks nodes) : ∀ (t : Spec.Tree) (p link : Option Nat) (lo hi : Nat) (x : Res F),
     t ≠ .nil → IsTreeAt nodes p link t → t.inorder = List.range' lo (hi - lo) → bracketsOK (dfOf nodes) t = true →
     go pf κ toks (toRG (dfOf nodes) t) = some x → (∀ id b, (id, b) ∈ x.bodies → lookupBody B id = some b) →
@@ -112,22 +124,52 @@ theorem out_of_tree (hlink : Linked toks nodes) : ∀ (t : Spec.Tree) (p link : 
         | node rl ri rk rr =>
           have hne : toRG (dfOf nodes) (.node rl ri rk rr) ≠ .nil := by rw [Ne, toRG_nil_iff]; simp
           simp only [show toRG (dfOf nodes) Spec.Tree.nil = RTree.nil from rfl] at hgo ⊢
-          rw [go_pre _ _ _ _ _ _ hne, htext] at hgo
-          obtain ⟨x', hx', hx⟩ := bind_some hgo
-          obtain ⟨hrl, _⟩ := isTreeAt_inv hr
-          have hbs : ∀ id b, (id, b) ∈ x'.bodies → (id, b) ∈ x.bodies := by
-            intro id b hm
-            unfold preE at hx
-            split at hx
-            · cases hx; exact hm
-            · split at hx
+          obtain ⟨hrl, nr, hnr, _, _, hrL, hrR⟩ := isTreeAt_inv hr
+          by_cases hside : isSideNode (toRG (dfOf nodes) (.node rl ri rk rr)) = true
+          · -- `v [ body ]`
+            obtain ⟨hrlnil, hdse⟩ := side_shape hnr hside
+            subst hrlnil
+            have hri : ri = lo + 1 := by
+              simp only [Spec.Tree.inorder, List.nil_append] at h4
+              have := split_range (l := []) h4
+              have h5 := range_nil this.2.2.1
+              omega
+            subst hri
+            have h4' : rr.inorder = List.range' (lo + 1 + 1) (hi - (lo + 1 + 1)) := by
+              simp only [Spec.Tree.inorder, List.nil_append] at h4
+              exact (split_range (l := []) h4).2.2.2
+            have hbr2 : bracketsOK (dfOf nodes) rr = true := by
+              simp only [bracketsOK, Bool.and_eq_true] at hbrr
+              exact hbrr.2
+            have hrg : toRG (dfOf nodes) (.node .nil (lo + 1) rk rr) = .node .nil .sideEffect rk (toRG (dfOf nodes) rr) := by
+              simp only [toRG, dfOf_get hnr, hdse]
+              rfl
+            rw [hrg, go_side, htext] at hgo
+            obtain ⟨e, he, hgo⟩ := bind_some hgo
+            obtain ⟨x', hx', hx⟩ := bind_some hgo
+            cases hx
+            have hrrne : rr ≠ .nil := fun e => go_ne_nil hx' ((toRG_nil_iff _ _).mpr e)
+            cases rr with
+            | nil => exact absurd rfl hrrne
+            | node rrl rri rrk rrr =>
+              obtain ⟨hrrl, _⟩ := isTreeAt_inv hrR
+              have ih := out_of_tree hlink (.node rrl rri rrk rrr) _ _ _ _ x' (by simp) hrR h4' hbr2 hx' hB
+              exact Out.plain (Rep.side hn hnl hrl (leaf_leafRep he) hnr hdse hrrl ih.rep)
+          · rw [go_pre _ _ _ _ _ _ hne (by simpa using hside), htext] at hgo
+            obtain ⟨x', hx', hx⟩ := bind_some hgo
+            have hbs : ∀ id b, (id, b) ∈ x'.bodies → (id, b) ∈ x.bodies := by
+              intro id b hm
+              unfold preE at hx
+              split at hx
               · cases hx; exact hm
               · split at hx
                 · cases hx; exact hm
-                · cases hx
-          have ih := out_of_tree hlink (.node rl ri rk rr) _ _ _ _ x' (by simp) hr h4 hbrr hx'
-            (fun id b hm => hB id b (hbs id b hm))
-          exact pre_out hn hrl ih.rep hx
+                · split at hx
+                  · cases hx; exact hm
+                  · cases hx
+            have ih := out_of_tree hlink (.node rl ri rk rr) _ _ _ _ x' (by simp) hr h4 hbrr hx'
+              (fun id b hm => hB id b (hbs id b hm))
+            exact pre_out hn hrl ih.rep hx
       | node ll li lk lr =>
         have hnel : toRG (dfOf nodes) (.node ll li lk lr) ≠ .nil := by rw [Ne, toRG_nil_iff]; simp
         obtain ⟨hll, _⟩ := isTreeAt_inv hl
